@@ -483,4 +483,109 @@ Section Csv2.
     destruct (take_record2_rep d n s1 _ Hm1 (Hm2 eq_refl)) as (s2 & -> & H2 & _).
     intro E. inversion E; subst. eauto.
   Qed.
+
+  (* ---- header/footer based records ------------------------------------------------------------------ *)
+  Definition fsel (footer : option pat) (row : list bytes) : bool :=
+    match footer with None => true | Some p => re_match p (join delim row) end.
+
+  (* j is the first row at or after i that the footer selects *)
+  Definition first_footer (footer : option pat) (R : list (list bytes)) (i j : nat) : Prop :=
+    i <= j /\ (exists row, nth_error R j = Some row /\ fsel footer row = true) /\
+    forall j' row', i <= j' < j -> nth_error R j' = Some row' -> fsel footer row' = false.
+
+  Lemma footer_match_rep footer s rows i row : rep s rows -> nth_error rows i = Some row ->
+    exists s', (match footer with
+                | None => (Ok true, s)
+                | Some p => match_line re_match delim p i s
+                end) = (Ok (fsel footer row), s') /\ rep s' rows /\ s_c s' = s_c s.
+  Proof.
+    intros H Er. destruct footer as [p|]; [apply match_line_rep; assumption|].
+    exists s. cbn. auto.
+  Qed.
+
+  Lemma footer_loop2_rep d footer : forall fuel i s rows t s',
+    rep s rows -> i < length rows ->
+    footer_loop2 re_match comma delim fuel d footer true i s = (Ok (true, Some t), s') ->
+    exists more j, first_footer footer (rows ++ more) i j
+      /\ t = node_spec d (firstn (S j) (rows ++ more))
+      /\ rep s' (skipn (S j) (rows ++ more)).
+  Proof.
+    induction fuel as [|fuel IH]; intros i s rows t s' H Hi E; [discriminate|].
+    cbn [footer_loop2] in E.
+    destruct (nth_error rows i) as [row|] eqn:Er.
+    2:{ apply nth_error_None in Er. lia. }
+    destruct (footer_match_rep footer s rows i row H Er) as (s1 & Em & H1 & _).
+    rewrite Em in E. destruct (fsel footer row) eqn:Ef.
+    - (* the footer is on row i *)
+      destruct (take_record2_rep d (S i) s1 rows H1 ltac:(lia)) as (s2 & Et & H2 & _).
+      rewrite Et in E. inversion E; subst.
+      exists [], i. rewrite app_nil_r. split; [|split; [reflexivity|exact H2]].
+      split; [lia|]. split; [eauto|]. intros j' row' Hj. lia.
+    - pose proof (layout_length _ _ _ (proj1 H1)) as Hlen.
+      destruct (length (s_lines s1) - 1 <=? i) eqn:El.
+      + (* read one more line *)
+        pose proof (c2_readline_rep s1 rows H1) as Hr.
+        destruct (csv_next comma (s_c s1)) as [r c'].
+        destruct r as [rec| | | |].
+        * destruct Hr as (s2 & Er2 & H2 & _). rewrite Er2 in E.
+          destruct (IH (S i) s2 (rows ++ [rec]) t s' H2 ltac:(rewrite app_length; simpl; lia) E)
+            as (more & j & (Hj1 & Hj2 & Hj3) & Ht & Hs).
+          rewrite <- app_assoc in *. cbn [app] in *.
+          exists (rec :: more), j. split; [|split; assumption].
+          split; [lia|]. split; [exact Hj2|].
+          intros j' row' Hj' En. destruct (Nat.eq_dec j' i) as [->|Hne].
+          -- rewrite nth_error_app1 in En by lia. rewrite Er in En. inversion En; subst. exact Ef.
+          -- apply (Hj3 j' row'); [lia|exact En].
+        * destruct Hr as (o & s2 & Er2 & _). rewrite Er2 in E. discriminate.
+        * destruct Hr as (s2 & Er2 & _). rewrite Er2 in E. discriminate.
+        * destruct Hr as (o & s2 & Er2 & _). rewrite Er2 in E. discriminate.
+        * destruct Hr as (o & s2 & Er2 & _). rewrite Er2 in E. discriminate.
+      + apply Nat.leb_gt in El.
+        destruct (IH (S i) s1 rows t s' H1 ltac:(lia) E) as (more & j & (Hj1 & Hj2 & Hj3) & Ht & Hs).
+        exists more, j. split; [|split; assumption].
+        split; [lia|]. split; [exact Hj2|].
+        intros j' row' Hj' En. destruct (Nat.eq_dec j' i) as [->|Hne].
+        * rewrite nth_error_app1 in En by lia. rewrite Er in En. inversion En; subst. exact Ef.
+        * apply (Hj3 j' row'); [lia|exact En].
+  Qed.
+
+  (* a header/footer based record: the first unconsumed row matches the header, the record ends
+     with the first row from there on that matches the footer (the header row itself when no
+     footer is declared), the node is the specified one for exactly these rows, in reading order,
+     and exactly these rows are consumed *)
+  Theorem csv2_hf_record_proof d header footer s rows t s' :
+    rep s rows -> q_shape d = HeaderFooter header footer ->
+    read_and_match2 re_match comma delim d true s = (Ok (true, Some t), s') ->
+    exists more j row0,
+      nth_error (rows ++ more) 0 = Some row0 /\ re_match header (join delim row0) = true
+      /\ first_footer footer (rows ++ more) 0 j
+      /\ t = node_spec d (firstn (S j) (rows ++ more))
+      /\ rep s' (skipn (S j) (rows ++ more)).
+  Proof.
+    intros H Hs E. unfold read_and_match2 in E. rewrite Hs in E.
+    pose proof (layout_length _ _ _ (proj1 H)) as Hlen.
+    assert (H0 : exists s0 more0 row0, (if Nat.eqb (length (s_lines s)) 0 then c2_readline comma s else (Ok true, s))
+                    = (Ok true, s0) /\ rep s0 (rows ++ more0) /\ nth_error (rows ++ more0) 0 = Some row0).
+    { destruct (Nat.eqb (length (s_lines s)) 0) eqn:E0.
+      - apply Nat.eqb_eq in E0. destruct rows as [|r0 rows]; [|simpl in Hlen; lia].
+        pose proof (c2_readline_rep s [] H) as Hr.
+        destruct (csv_next comma (s_c s)) as [r c'].
+        destruct r as [rec| | | |].
+        + destruct Hr as (s0 & Er & H1 & _). exists s0, [rec], rec. auto.
+        + destruct Hr as (o & s0 & Er & _). rewrite Er in E. discriminate.
+        + destruct Hr as (s0 & Er & _). rewrite Er in E. discriminate.
+        + destruct Hr as (o & s0 & Er & _). rewrite Er in E. discriminate.
+        + destruct Hr as (o & s0 & Er & _). rewrite Er in E. discriminate.
+      - apply Nat.eqb_neq in E0. destruct rows as [|r0 rows]; [simpl in Hlen; lia|].
+        exists s, [], r0. rewrite app_nil_r. auto. }
+    destruct H0 as (s0 & more0 & row0 & E0 & H0 & Er0). rewrite E0 in E.
+    destruct (match_line_rep header s0 _ 0 row0 H0 Er0) as (s1 & Em & H1 & _). rewrite Em in E.
+    destruct (re_match header (join delim row0)) eqn:Eh; [|discriminate].
+    assert (Hpos : 0 < length (rows ++ more0)).
+    { destruct (rows ++ more0); [discriminate|simpl; lia]. }
+    destruct (footer_loop2_rep d footer _ 0 s1 _ t s' H1 Hpos E) as (more & j & Hf & Ht & Hrep).
+    rewrite <- app_assoc in *.
+    exists (more0 ++ more), j, row0. split; [|auto].
+    rewrite app_assoc. rewrite nth_error_app1; [exact Er0|exact Hpos].
+  Qed.
 End Csv2.
